@@ -98,6 +98,9 @@ def run_case(rs, ctx):
     sh.nf = nf1
     nD = int(gen.pick(rs, [max(gen.min_rows(cfg), 2), 5, 12, 40]))
     nD = max(nD, gen.min_rows(cfg))
+    if p in ("none", "radius", "knn", "tree") and rs.integers(8) == 0:
+        nD = 0  # an empty data set (a filter that matched nothing) is a legal D for these policies: everything goes back to neutral
+        ctx.count("empty_D")
     # D need not mention every arm: arms without rows in D must come out of fit(D) exactly as a fresh bandit's would
     omit = None
     if len(sh.arms) > 1 and rs.integers(2):
@@ -107,7 +110,7 @@ def run_case(rs, ctx):
         if len(set(omit)) >= len(sh.arms):
             omit = omit[:1]
     D = gen.gen_batch(rs, cfg, sh.arms, nD, nf1, distinct_rows=4, omit=omit)
-    fit_op = dict(D, op="fit")
+    fit_op = dict(D, op="fit", nf=nf1)
     cfgF = dict(cfg, arms=list(sh.arms))
     F = gen.build(cfgF)
     wit = {"cfg": cfg, "prior": prior, "fit": fit_op}
